@@ -39,6 +39,7 @@ CORE = "/repo/quiver-core/src"
 WHAT = {
     "c12_binary_get": "binary_get == big-endian bit window, clean error outside the domain, no panic",
     "c12_binary_set": "binary_set == bit-string update, clean error outside the domain, no panic",
+    "c12_binary_set_window": "binary_set at byte offset 0 of a 9-byte binary: every bit offset, width and value",
     "c12_binary_shift": "binary_shift == logical shift of the bit string for every i64 amount",
     "c12_binary_slice": "binary_slice == bytes[start..end]",
     "c12_binary_concat_length": "binary_concat == a ++ b, binary_length == len",
